@@ -42,7 +42,10 @@ def _mk(desc, k):
     kw = {a: b for a, b in desc.items() if a != 'via'}
     if kind == 'Feedback':
         kw.setdefault('label', 'f%d' % k)
-        kw.setdefault('message', 'msg%d' % k)
+        if 'message' in kw and kw['message'] is None:
+            del kw['message']          # rendered from the template
+        else:
+            kw.setdefault('message', 'msg%d' % k)
         kw.setdefault('valence', -1)
         return Feedback(**kw)
     f = getattr(cmds, kind)
@@ -82,6 +85,7 @@ ALPHA = [
     dict(category='mistakes', fields={'x': 2}, label='L'),
     dict(category='positive', correct=True, valence=1),
     dict(category='instructions', kind='Instructional', valence=0),
+    dict(category='runtime', message=''),
 ]
 ALPHA_NONE = [dict(category=None), dict(category=None, priority='high')]
 
